@@ -496,6 +496,11 @@ def cmp_c07(rec, job, obs, gram):
                 d.append(("%s.%s.end" % (form, nm), rec["end"], o["end"]))
         if not d and rec["ok"] and pp["toks"] != rec["ptoks"]:
             d.append((form + ".tokens", rec["ptoks"], pp["toks"]))
+        # no skipping at the end of an atomic / compound entry rule, trailing skip otherwise: the full verdicts
+        for nm in ("pf", "cf"):
+            o = typed_form(obs, form, nm)
+            if not d and not is_bad(o) and o["ok"] != rec["full"]["ok"]:
+                d.append(("%s.%s.ok" % (form, {"pf": "parse", "cf": "check"}[nm]), rec["full"]["ok"], o["ok"]))
     return d
 
 
@@ -513,6 +518,7 @@ def grams_for(prop, tier, seed):
         g += k[::9] if q else k[::2]
         g += F.fam_dyck_inputs(tier)
         g += F.fam_repo(tier)
+        g += F.fam_skipuntil(tier)
         return g
     if prop == "C03":
         g = F.fam_ops(tier)
@@ -527,6 +533,7 @@ def grams_for(prop, tier, seed):
         k = F.fam_kinds(tier)
         g += k[::12] if q else k[::3]
         g += F.fam_repo(tier)
+        g += F.fam_skipuntil(tier)
         return g
     if prop == "C04":
         g = F.fam_trail(tier)
@@ -545,7 +552,7 @@ def grams_for(prop, tier, seed):
             x["maxlen"] = min(x.get("maxlen", 3), 3)
         return g + extra
     if prop == "C09":
-        g = F.fam_utf8(tier) + F.fam_sub(tier)
+        g = F.fam_utf8(tier) + F.fam_sub(tier) + F.fam_skipuntil(tier)
         g += F.fam_rand(tier, seed, 10 if q else 60, "utf8")
         g += F.fam_rand(tier, seed, 5 if q else 30, "stack")
         ops = F.fam_ops(tier)
@@ -563,6 +570,8 @@ def grams_for(prop, tier, seed):
         st = F.fam_stack(tier)
         g = st[::2] if q else st
         g += F.fam_rand(tier, seed, 14 if q else 80, "stack")
+        ss = F.fam_skipstack(tier)
+        g += ss[::2] if q else ss
         return g
     if prop == "C06":
         g = F.fam_slices(tier)
@@ -603,6 +612,14 @@ def check_C03(tier, seed):
     grams = grams_for("C03", tier, seed)
     ctx.notes["grammars"] = len(grams)
     run_generic(ctx, "c03", grams, "spn", cmp_c03, with_pest=False)
+    # the raw-AST path (pest_optimizer = false) keeps counted repetitions and e+ as runtime nodes: parse vs check there too
+    raw = [dict(g) for g in grams if any(t in g["text"] for t in ("{2}", "{1,}", "{,2}", "{1,2}", ")+", "\"+"))]
+    raw = raw[::3] if tier == "quick" else raw
+    for g in raw:
+        g["id"] = g["id"] + "x"
+        g["opts"] = {"pest_optimizer": False}
+    ctx.notes["raw_ast_variants"] = len(raw)
+    run_generic(ctx, "c03x", raw, "spn", cmp_c03, ast="src", with_pest=False)
     return ctx.finish(rule=RULE_A + "Decisive: try_check / try_check_partial against try_parse / try_parse_partial on the same input object, for &str, Position and Span: verdict, offset, rendered error, tracker report, final stack; and both against the model.")
 
 
